@@ -131,17 +131,29 @@ func sizeBound(w string) *big.Int {
 	return bound
 }
 
-// spanOverflows: the word holds a numeric sequence whose end minus start does
-// not fit bash's intmax_t arithmetic (braces.c refuses when the difference is
-// outside [INTMAX_MIN+3, INTMAX_MAX-2] and leaves the text alone, although
-// with a large step the documented sequence would be short). Such words are
-// outside what the reference can answer.
+// spanOverflows: the word holds a sequence that bash's intmax_t arithmetic
+// gives up on, leaving the text alone: the end minus the start is outside
+// [INTMAX_MIN+3, INTMAX_MAX-2] (although with a large step the documented
+// sequence would be short), or the sequence ascends and the step is
+// INTMAX_MIN, which braces.c cannot negate. Such words are outside what the
+// reference can answer.
 func spanOverflows(w string) bool {
-	for _, m := range numRangeRe.FindAllStringSubmatch(w, -1) {
+	ms := numRangeRe.FindAllStringSubmatch(w, -1)
+	ms = append(ms, chrRangeRe.FindAllStringSubmatch(w, -1)...)
+	for _, m := range ms {
 		from, _ := new(big.Int).SetString(m[1], 10)
 		to, _ := new(big.Int).SetString(m[2], 10)
+		if from == nil && to == nil { // letters: their character codes
+			from, to = big.NewInt(int64(m[1][0])), big.NewInt(int64(m[2][0]))
+		}
 		if from == nil || to == nil || !fitsInt64(from) || !fitsInt64(to) {
 			continue
+		}
+		if m[3] != "" && from.Cmp(to) < 0 {
+			// an ascending sequence with step -2^63: bash cannot negate it.
+			if st, ok := new(big.Int).SetString(m[3], 10); ok && st.Cmp(minInt64) == 0 {
+				return true
+			}
 		}
 		d := new(big.Int).Sub(to, from)
 		lo := new(big.Int).Add(minInt64, big.NewInt(3))
